@@ -63,6 +63,12 @@ def gen_cases(ctx) -> List[Dict[str, Any]]:
         for e in exits:
             for size in ([1 << 20] if ctx.tier == "quick" else [200_000, 1 << 20, 8 << 20]):
                 cases.append({"behaviour": b, "exit": e, "moment": "in_flight", "payload_bytes": size})
+    # the body ends normally (or by exception) and the enclosing deadline fires while the shutdown is in progress
+    for b in (["ignore_sigterm", "sigterm_slow:0.5", "well_behaved"] if ctx.tier == "quick"
+              else ["ignore_sigterm", "sigterm_slow:0.5", "sigterm_slow:1.4", "well_behaved", "never_read", "flood"]):
+        for e in ("deadline_during_exit", "exception_deadline_during_exit"):
+            for lead in ([0.3] if ctx.tier == "quick" else [0.05, 0.3, 0.8]):
+                cases.append({"behaviour": b, "exit": e, "moment": "after_response", "cancel_after": 1.2, "lead": lead})
     for b in ("unstartable", "not_executable"):
         for e in ("normal", "cancel"):
             cases.append({"behaviour": b, "exit": e, "moment": "before_first"})
@@ -110,6 +116,8 @@ def judge(ctx, case: Dict[str, Any], o: Dict[str, Any], remeasure) -> None:
                 mech = "child_left_zombie" if st == "Z" else "child_left_running"
                 if case["exit"] in ("cancel", "fail_after"):
                     mech += "_after_cancellation"
+                elif "deadline_during_exit" in case["exit"]:
+                    mech += "_when_cancelled_during_shutdown"
                 ctx.violation(mech, f"child pid {pid} is in state {st!r} 0.3 s after the context was left "
                               f"(exit took {o.get('exit_duration')})", case, o)
             shape.append(st)
